@@ -8,7 +8,13 @@ FUNCTIONS = ['uxarray.io._mpas._replace_padding',
     'uxarray.io._topology._process_connectivity',
     'uxarray.io._mpas._parse_face_faces@primal',
     'uxarray.io._mpas._parse_node_faces@primal',
-    'uxarray.io._mpas._parse_node_faces@dual']
+    'uxarray.io._mpas._parse_node_faces@dual',
+    'uxarray.io._mpas._parse_face_nodes@primal',
+    'uxarray.io._mpas._parse_face_nodes@dual',
+    'uxarray.io._mpas._parse_face_edges@primal',
+    'uxarray.io._mpas._parse_face_edges@dual',
+    'uxarray.io._mpas._parse_edge_faces@primal',
+    'uxarray.io._mpas._parse_edge_faces@dual']
 STANDINS = ["readers"]
 ASSUMPTIONS = []
 EXPLANATION = ""
